@@ -189,6 +189,9 @@ where
         }
         // structure of this doubling
         let ctx = format!("doubling {j} (direction {v}, eps {eps:e}, {})", spec.name());
+        if dbl.n_alpha != t.n_alpha && std::env::var("VERIF_DEBUG").is_ok() {
+            eprintln!("DEBUG tree-size: j={j} v={v} margin={:e} margin_tol={margin_tol:e} diverged={} inner_stop={} logu={logu} joint0={} leaves={:?} x={:?} p0={:?} lib_after={:?}", t.margin, t.diverged, t.inner_stop, rec.joint_0, t.leaves.iter().map(|l| (l.state.x.clone(), l.state.p.clone(), l.state.joint, l.admissible)).collect::<Vec<_>>(), x, p0, rec.position_after);
+        }
         ensure!(dbl.n_alpha == t.n_alpha, "nuts-tree-size", "{ctx}: {} leapfrog steps taken, reference builds {} before stopping", dbl.n_alpha, t.n_alpha);
         ensure!(dbl.n_prime == t.n, "nuts-n-prime", "{ctx}: n' = {} slice-admissible points, reference counts {}", dbl.n_prime, t.n);
         ensure!(dbl.s_prime == t.s, "nuts-s-prime", "{ctx}: sub-tree reports s' = {}, reference (U-turn / divergence tests) {}", dbl.s_prime, t.s);
